@@ -35,7 +35,10 @@ def oracleBinFl (f : Fmt) (op : RawBin) (l r a b : Fl) (obs : String) : Verdict 
       match flOf? f obs with
       | none => .fail "result is not a value"
       | some o =>
-        if !o.isFinite then (if ratAbs exact ≥ Fl.toRat (Fl.fin false (2 ^ f.p - 1) f.emax) then .guard "overflow/underflow" else .fail "non-finite result")
+        -- (the escape must allow for the tolerance: `change_base(b)` carries two roundings, so the float
+        --  operation can overflow while the exact result is still just below MAX — Proofs/OpsOracleSound.lean
+        --  has the kernel-checked witnesses for the earlier `ratAbs exact ≥ MAX`)
+        if !o.isFinite then (if ratAbs exact + tol ≥ Fl.toRat (Fl.fin false (2 ^ f.p - 1) f.emax) then .guard "overflow/underflow" else .fail "non-finite result")
         else if needNormal && !(Fl.isNormal f o || (o.isZero && exact = 0)) then .guard "overflow/underflow"
         else if ratAbs (o.toRat - exact) ≤ tol then .pass
         else .fail "result is more than a few u away from the exact physical result"
